@@ -9,7 +9,7 @@ Import ListNotations.
 Require Import Fggs.Model.Conj Fggs.Model.TreeDec Fggs.Proofs.TreeDec_tdok Fggs.Model.Factorize
                Fggs.Proofs.Fz_fresh Fggs.Proofs.Fz_rooted Fggs.Proofs.Fz_struct Fggs.Proofs.Fz_main
                Fggs.Proofs.Fz_bridge Fggs.Proofs.Fz_final Fggs.Proofs.Fz_inline Fggs.Proofs.Fz_labels
-               Fggs.Proofs.Fz_examples.
+               Fggs.Model.FactorizeCheck Fggs.Proofs.Fz_glue Fggs.Proofs.Fz_examples.
 
 (** * C05_edges_once
     For EVERY rule, EVERY valid tree decomposition of its primal graph (whatever method produced
@@ -202,6 +202,20 @@ Theorem C05_nodes_ok_sound :
                          /\ incl (fr_nodes c) (fr_nodes r).
 Proof. exact nodes_ok_sound. Qed.
 Print Assumptions C05_nodes_ok_sound.
+(** grammar level ([glue_ok], run on the output of factorize_hrg / factorize_fgg): the new grammar
+    is made of exactly the rules the factorize_rule calls returned; the fresh names of ALL calls
+    are pairwise different and are the name of NO label of the input grammar; in the whole new
+    grammar every fresh nonterminal has exactly one rule and exactly one use *)
+Theorem C05_glue_ok_sound :
+  forall g outs gnew, glue_ok g outs gnew = true ->
+    Permutation (concat outs) (fh_all_rules gnew)
+    /\ NoDup (map el_name (flat_map fresh_of outs))
+    /\ forall l, In l (flat_map fresh_of outs) ->
+         ~ In (el_name l) (map el_name (fh_elabels g))
+         /\ rules_with_lhs l (fh_all_rules gnew) = 1
+         /\ count_label l (fh_all_rules gnew) = 1.
+Proof. exact glue_ok_sound. Qed.
+Print Assumptions C05_glue_ok_sound.
 Example C05_oracles_example :
   exists rs ls, factorize_rule_model path4 [] td_acb ords_acb = Ok (rs, ls) /\ length rs = 4
     /\ inline_ok path4 rs = true /\ fresh_ok [[83]; [116]] rs = true /\ nodes_ok path4 td_acb rs = true.
